@@ -60,6 +60,13 @@ def events_for_case(o, cid, gam, qs, ids, metrics=sd.METRICS, extra_targets=()):
                 e["exc"] = type(ex).__name__
             continue
         sd.threshold_event(ev, s, o, m, qs, gam, extra_targets=extra_targets)
+    if cid % 3 == 1 and not gam.name.startswith(("random", "big", "ulp")):
+        # history: the scores of the (already queried) object are shifted in place
+        o2 = sd.shift_event(ev, s, o, gam, d=2)
+        if o2 is not None:
+            for m in metrics[(cid // 3) % 2::2]:
+                if len(sd.rel_scores(o2, m)):
+                    sd.threshold_event(ev, s, o2, m, qs, gam, extra_targets=extra_targets)
     if cid % 3 == 0:
         # history: another configuration is assigned to the (already queried) object
         o2 = sd.set_config_event(ev, s, o, gam, k=cid // 3)
